@@ -96,6 +96,10 @@ def c04_items(tier, rnd):
             Ps.append(nine_item(t, [rnd.choice(A9) for _ in range(9)], helper))
             if rnd.random() < 0.3:
                 Ps[-1]["conc_ty"] = True
+            # the marker predicates in other spellings (higher-ranked, parenthesised / tuple / projected subject, path-spelled bound,
+            # bound with generic arguments, a trailing comma in the list): a predicate is carried over verbatim whatever it looks like
+            if rnd.random() < 0.35:
+                Ps[-1]["pred_form"] = rnd.choice(["hrtb", "paren", "tuple", "path", "bound_args", "trailing_comma"])
     # fields whose usage state suppresses the DEFAULT bound still contribute their explicit levels:
     # #[default(expr)] with bound(...), on structs and on the default variant of enums
     for ch in itertools.product(A4, repeat=4):
